@@ -191,11 +191,12 @@ def run(prog, rep):
         cfg = CFG(fn)
         creates = [n for n in cfg.nodes if n.kind == 'stmt' and n.ast is not None and any(isinstance(c, ast.Call) and is_create(c) for c in walk_no_nested(n.ast))]
         tests = [t for t in cfg.nodes if t.kind == 'test' and t.tag == 'if' and 'name' in ast.unparse(t.ast) and
-                 isinstance(t.ast, ast.Compare) and isinstance(t.ast.ops[0], ast.In) and any(isinstance(x, ast.Raise) for x in ast.walk(t.ast._parent))]
+                 isinstance(canon(t.ast), ast.Compare) and isinstance(canon(t.ast).ops[0], ast.In) and any(isinstance(x, ast.Raise) for x in ast.walk(t.ast._parent))]
         # the compared collection must come from the scope's listing
         good = []
         for t in tests:
-            rhs = t.ast.comparators[0]
+            tcan = canon(t.ast)
+            rhs = tcan.comparators[0]
             txt = ast.unparse(rhs)
             ok_scope = scope in txt
             if not ok_scope and isinstance(rhs, ast.Name):
@@ -212,7 +213,7 @@ def run(prog, rep):
                         ok_scope = False
             if ok_scope and any(isinstance(x, ast.comprehension) and x.ifs for x in ast.walk(rhs)):
                 ok_scope = False
-            if ok_scope and ast.unparse(t.ast.left) == 'name':
+            if ok_scope and ast.unparse(tcan.left) == 'name':
                 good.append(t)
         rep.instance('R4', f'{fq}: uniqueness test {[norm(t.ast, 70) for t in good]} before creation')
         if not creates:
@@ -350,6 +351,9 @@ def run(prog, rep):
     rep.rule('R12', 'the interface cache of a handle is rebuilt without the removed child after every removal through it', floor=5)
     from .c08 import check_cache_after_removal
     check_cache_after_removal(prog, rep, 'R12')
+    rep.rule('R13', 'removing a sub-interface leaves its parent port (and so the peer of the service port joined to it) in place', floor=1)
+    from .c08 import check_child_removal_keeps_parent
+    check_child_removal_keeps_parent(prog, rep, 'R13')
 
     # ---- R7 ----
     for spec in ('fim.user.topology:Topology',):
